@@ -36,7 +36,7 @@ chk("C25", "MIR CFG: limit comparisons edge-dominate the step (edge-removal reac
     "Trusted: rustc MIR; the blocking-API table. Deep value nesting inside one step is reported by the thorough tier as a known finding.",
     "DESIGN.md section 4 C25")
 
-chk("C08", "MIR CFG must-pass-through: every non-step exit of the interpreter loop restores the popped expression; no-effect-before-check; flag consumed once; RE-ENTRY (Interrupted arms of the session front ends hand no &mut Env to anything); NAMESPACE-WRITERS shared with C10",
+chk("C08", "MIR CFG must-pass-through: every non-step exit of the interpreter loop restores the popped expression; no-effect-before-check; flag consumed once; RE-ENTRY (Interrupted arms of the session front ends hand no &mut Env to anything); NAMESPACE-WRITERS shared with C10; the stack-writer rules of C02/C09 (nothing but reviewed writers touches pending entries and operands)",
     "For every path of eval::eval from the pop of (state, expr) to a return that skips the step, restore_stack_frame(pair, []) is on the path, nothing but the tick counter is written before the checks, and the interrupt flag is cleared only on the Interrupted edge; so the machine state at an interrupt equals the state before the step, for every step of every program.",
     "Trusted: rustc MIR. Decides the state-restoration clause; equality of printed output additionally assumes steps are deterministic.",
     "DESIGN.md section 4 C08")
@@ -46,7 +46,7 @@ chk("C26", "MIR CFG: exit(1) edge-dominated by failures>0 and reached unconditio
     "Trusted: rustc MIR. Independence with respect to namespace-level state (definitions a test mutates) is not decided.",
     "DESIGN.md section 4 C26")
 
-chk("C34", "MIR CFG: value hand-out edge-dominated by exported_syms.contains (run time and check time), filtered copy for unqualified imports, visibility bookkeeping per arm, cycle guard dominance, who-may-write; CYCLE-KEY-NORMAL (the cycle key derives from normalize()); IMPORT-FILTER in loop and iterator form",
+chk("C34", "MIR CFG: value hand-out edge-dominated by exported_syms.contains (run time and check time), filtered copy for unqualified imports, visibility bookkeeping per arm, cycle guard dominance, who-may-write; CYCLE-KEY-NORMAL (the cycle key derives from normalize()); a path is marked seen only on the way to loading it; FRAME-NAMESPACE (call frames take the namespace of the defining file); IMPORT-FILTER in loop and iterator form",
     "Both places that hand a member of an imported namespace to a program are proved to pass the visibility test on every path from the lookup hit; unqualified imports copy only tested members; exported_syms is maintained in one function with Public=>insert/CurrentFile=>remove; the recursive import load is behind the paths_seen test.",
     "Trusted: rustc MIR. Re-exports through chains of namespaces and type visibility are not decided.",
     "DESIGN.md section 4 C34")
@@ -61,12 +61,12 @@ chk("C31", "MIR: reset-on-dequeue must-pass, interrupt addressing provenance (lo
     "Trusted: rustc MIR. Schedules are out of reach of static analysis; these are necessary, not sufficient, conditions.",
     "DESIGN.md section 4 C31")
 
-chk("C13", "syntax-table coverage: diagonal arms of `impl PartialEq for Value_` vs the enum's variants; same-field conjunction shape per arm; != is derived; operator dispatch agreement; identity field (runtime_type or type_name) compared for enum and struct values",
+chk("C13", "syntax-table coverage: diagonal arms of `impl PartialEq for Value_` vs the enum's variants; same-field conjunction shape per arm; != is derived; operator dispatch agreement; identity field (runtime_type or type_name) compared for enum and struct values; CONTEXT-FREE-TYPE (MIR taint: frame type bindings do not flow into built values); DICT-TYPE-ORDER-FREE (a dict's hidden value type comes from a join, another dict or a fixed type)",
     "Coverage clauses the compiler cannot enforce because of the `_ => false` catch-all: every variant has its diagonal arm, each literal-syntax arm compares every value-carrying field of the two sides pairwise, and != is the negation on the same operands. A relation of that shape is an equivalence by induction on values; values are never computed.",
     "Trusted: syn parse of values.rs/eval.rs; std/rpds element-wise equality. NaN reflexivity is excluded by the property (finite floats).",
     "DESIGN.md section 4 C13")
 
-chk("C10", "field-coverage: StackFrame fields (from the type) classified by a reviewed table; each state field reset by pop_to_toplevel on frame 0 on every path (MIR); Abort arm shapes; ABORT-CALLS unconditional (every path through the Command::Abort arm passes pop_to_toplevel); NAMESPACE-WRITERS (who may replace a frame's namespace); BLOCK-SCOPE-ORDER",
+chk("C10", "field-coverage: StackFrame fields (from the type) classified by a reviewed table; each state field reset by pop_to_toplevel on frame 0 on every path (MIR); Abort arm shapes; ABORT-CALLS unconditional (every path through the Command::Abort arm passes pop_to_toplevel); NAMESPACE-WRITERS (who may replace a frame's namespace); BLOCK-SCOPE-ORDER; initial lengths assumed by truncate(k); C06's block discipline rules",
     "Reset-coverage clause: every per-evaluation field of the surviving frame is reset by :abort's only mechanism on every path, frames above are dropped, the Abort arms never evaluate afterwards. A new collection field without classification fails closed.",
     "Trusted: rustc MIR/ADT layout facts; the field classification table (reviewed, one reason per field). Whether top-level locals of the failed input should survive is not decided.",
     "DESIGN.md section 4 C10")
@@ -91,12 +91,12 @@ chk("C04", "MIR assert inventory (no overflow/div assert on signed ints reachabl
     "Trusted: rustc MIR (overflow checks on), syn parse, Rust's wrapping_*/checked_* semantics.",
     "DESIGN.md section 4 C04")
 
-chk("C06", "abstract simulation of MIR under fixed enum discriminants: owes-table of eval_expr (blocks popped per (variant, state)) vs blocks popped by eval_break/eval_continue per discarded or re-scheduled entry (conservation), stop-only-at-running-loop; CONSUME-NEXT-BLOCK (eval_block moves bindings_next_block out); BLOCK-SCOPE-ORDER",
+chk("C06", "abstract simulation of MIR under fixed enum discriminants: owes-table of eval_expr (blocks popped per (variant, state)) vs blocks popped by eval_break/eval_continue per discarded or re-scheduled entry (conservation), stop-only-at-running-loop; PUSH-PAIRING (per-step conservation: blocks pushed - popped = owed by what the step schedules - owed by its entry, with helper summaries); RETURN-CLEARS (pending entries cleared and inner binding blocks dropped); CONSUME-NEXT-BLOCK (eval_block moves bindings_next_block out); BLOCK-SCOPE-ORDER",
     "The push/pop discipline of binding blocks is decided for every (Expression_ variant, state) entry and every path of the unwinding code: what an entry's own arm would pop is exactly what break/continue pop when they remove it, they stop only at the loop whose body runs, and return drops the whole frame. That discipline is what makes a block's variables invisible after any exit.",
     "Trusted: rustc MIR; the abstraction that an entry in a state that pops a block exists only while that block is pushed. Name-resolution results are not computed.",
     "DESIGN.md section 4 C06")
 
-chk("C07", "symbolic sequence analysis over the syntax tree: values popped vs values handed to RestoreValues at each of ~150 error sites (reverse-equality), callee-pop summaries, inherited context at the two dispatchers; MIR: effect-before-error on eval_expr's fallible calls, Err-edge restore in eval::eval; EXIT-RESTORE (return value pushed back before every frame-exit error, through helpers); RESUME-ENTRY (loop-bypassing return only at top level)",
+chk("C07", "symbolic sequence analysis over the syntax tree: values popped vs values handed to RestoreValues at each of ~150 error sites (reverse-equality), callee-pop summaries, inherited context at the two dispatchers; MIR: effect-before-error on eval_expr's fallible calls, Err-edge restore in eval::eval; EXIT-RESTORE (return value pushed back before every frame-exit error, through helpers); RESUME-ENTRY (loop-bypassing return only at top level); the restored value goes back into the frame it was popped from",
     "For every error path of every step function the values pushed back are exactly the values popped, in reverse order, and no continuation stays scheduled when a helper fails; so re-running the failed step sees the same machine state. Decided per site for all programs; message text and side effects of re-running are not decided.",
     "Trusted: syn parse, rustc MIR; the walker's idiom set (vec! literals, pushes, for-loops over args, mirrored pop vectors, optional pop groups) - a construction outside it is reported, not assumed.",
     "DESIGN.md section 4 C07")
